@@ -387,7 +387,7 @@ theorem isKw_false (cs : Str) (h : ∀ c ∈ cs, c ≠ '=') : isKw cs = false :=
 theorem usbtmc_eval (win : Bool) (s t1 t2 t3 w1 w2 sn : Str) (x1 x2 : Int)
     (hparts : parseParts s = .ok [sUsbtmc, t1, t2, t3])
     (k1 : isKw t1 = true) (k2 : isKw t2 = true) (k3 : isKw t3 = true)
-    (s1 : splitEq2 t1 = [sVendorid, w1]) (s2 : splitEq2 t2 = [sProductid, w2]) (s3 : splitEq2 t3 = [sSerialnr, sn])
+    (s1 : splitEq t1 = [sVendorid, w1]) (s2 : splitEq t2 = [sProductid, w2]) (s3 : splitEq t3 = [sSerialnr, sn])
     (c1 : convKw .int w1 = .ok (.int x1)) (c2 : convKw .int w2 = .ok (.int x2))
     (r1 : 0 ≤ x1 ∧ x1 ≤ 65535) (r2 : 0 ≤ x2 ∧ x2 ≤ 65535) :
     ∃ cls, createTransport env win s [] =
@@ -482,7 +482,7 @@ theorem lowerHex_plain_chars {cs : Str} (h : ∀ c ∈ cs, isLowerHex c = true) 
   have h2 : c ≠ '$' := lowerHex_ne (h c hc) (by decide)
   simp [isCloser, h1, h2]
 
-theorem parseParts_usbtmc (v p : Nat) (sn : Str) (hsn : ∀ c ∈ sn, c ≠ ':' ∧ c ≠ '=') :
+theorem parseParts_usbtmc (v p : Nat) (sn : Str) (hsn : ∀ c ∈ sn, c ≠ ':') :
     parseParts (renderUsbtmc (Int.ofNat v) (Int.ofNat p) sn) =
       .ok [sUsbtmc, sVendorKw ++ fmt04x (Int.ofNat v), sProductKw ++ fmt04x (Int.ofNat p), sSerialKw ++ sn] := by
   obtain ⟨_, hv, _⟩ := fmt04x_spec v
@@ -509,7 +509,7 @@ theorem parseParts_usbtmc (v p : Nat) (sn : Str) (hsn : ∀ c ∈ sn, c ≠ ':' 
     rcases hq with rfl | rfl | rfl
     · exact pl _ _ (by decide) (by decide) (by decide) (lowerHex_plain_chars hv).1
     · exact pl _ _ (by decide) (by decide) (by decide) (lowerHex_plain_chars hp).1
-    · exact pl _ _ (by decide) (by decide) (by decide) (fun c hc => (hsn c hc).1)
+    · exact pl _ _ (by decide) (by decide) (by decide) hsn
 
 /-- `<iface>:<host>:<port>` with the host bracketed when it contains a colon -/
 theorem parseParts_hostPort (iface h : Str) (port : Nat) (hi : iface ≠ []) (hic : ∀ c ∈ iface, c ≠ ':')
